@@ -73,6 +73,20 @@ PREDEFINED_MEANING = {
 }
 PREDEFINED_STR = {"NotEmptyStr": r"^.*[^ ].*$", "Email": r"^[^@ ]+@[^@ ]+\.[^@ ]+$"}
 CUSTOM_REGEX = [r"^[a-z]+$", r"\d{2,3}x?", r"(ab|cd)*e", r"^[A-Z][a-z_0-9]*$", r"^-?\d+(\.\d+)?$", r"^\s*\w+\s*$", r"a.c", r"^(|x|xy)$", r"[^\n]+\n?$"]
+# patterns handed over as compiled `re.Pattern` objects (documented `regex: Union[str, Pattern]`): (text, flag names).
+# The registry key of a string type is the pattern text alone, so every entry has its own text.
+COMPILED_REGEX = [
+    (r"^[0-9A-F]{2}-[0-9A-F]{2}$", []),
+    (r"^0x[0-9a-f]+$", ["IGNORECASE"]),
+    (r"^[^a-c]+$", ["IGNORECASE"]),
+    (r"^ v \d+ \. \d+ $  # version", ["VERBOSE"]),
+    (r"^a.b$", ["DOTALL"]),
+    (r"^a$", ["MULTILINE"]),
+    (r"a\n^b$", ["MULTILINE"]),
+    (r"^\w+\s\d+$", ["ASCII"]),
+    (r"^ [a-c]+ . x $", ["IGNORECASE", "VERBOSE", "DOTALL"]),
+    (r"^q.$", ["DOTALL", "MULTILINE"]),
+]
 
 
 # ---------------------------------------------------------------- value encodings
@@ -308,18 +322,33 @@ def restriction_sets(refs, max_len):
 
 
 # ---------------------------------------------------------------- restricted strings
-def get_str_type(pattern):
+def flag_value(names):
+    v = 0
+    for n in names or []:
+        v |= int(getattr(re, n))
+    return v
+
+
+def compiled_of(pattern, flags):
+    """the ORIGINAL pattern object: the oracle's reference (`flags` = list of `re` flag names, None = plain str)"""
+    return re.compile(pattern, flag_value(flags))
+
+
+def get_str_type(pattern, flags=None):
+    """`flags is None`: the pattern is given to restricted_string_type as a str, else as a compiled re.Pattern"""
     from jsonargparse import typing as m
 
-    for name, pat in PREDEFINED_STR.items():
-        if pat == pattern:
-            return getattr(m, name)
+    if flags is None:
+        for name, pat in PREDEFINED_STR.items():
+            if pat == pattern:
+                return getattr(m, name)
     key = ("matching " + pattern, str)
     if key in m.registered_types:
         return m.registered_types[key]
     import hashlib
 
-    return m.restricted_string_type("C20S_" + hashlib.sha256(pattern.encode()).hexdigest()[:12], pattern)
+    name = "C20S_" + hashlib.sha256(pattern.encode()).hexdigest()[:12]
+    return m.restricted_string_type(name, pattern if flags is None else compiled_of(pattern, flags))
 
 
 def real_str(T, v):
@@ -332,8 +361,8 @@ def real_str(T, v):
     return {"err": "Other:result-" + type(r).__name__}, r
 
 
-def judge_str(pattern, T, v, res, raw):
-    want = isinstance(v, str) and re.match(pattern, v) is not None
+def judge_str(pattern, T, v, res, raw, flags=None):
+    want = isinstance(v, str) and compiled_of(pattern, flags).match(v) is not None
     if not want:
         return "accepted a value the pattern does not match" if "ok" in res else None
     if "err" in res:
@@ -349,10 +378,41 @@ def judge_str(pattern, T, v, res, raw):
     return None
 
 
+def str_via_parser(p, T, orig, v, how):
+    """verdict of a real parser for the text v against `orig.match` (the pattern object the type was built from)"""
+    want = orig.match(v) is not None
+    try:
+        cfg = p.parse_args(["--x=" + v]) if how == "argv" else p.parse_string(json.dumps({"x": v}))
+        got, ok = cfg.x, True
+    except BaseException as ex:  # noqa: BLE001
+        got, ok = type(ex).__name__, False
+    if ok and not want:
+        return "parser accepts a text the pattern does not match"
+    if want and not ok:
+        return "parser rejects (%s) a text the pattern matches" % got
+    if ok:
+        if type(got) is not T or str(got) != v:
+            return "parser returns %r for %r" % (got, v)
+        try:
+            back = p.parse_string(p.dump(cfg)).x
+        except BaseException as ex:  # noqa: BLE001
+            return "dump/parse of the accepted text raises %s" % type(ex).__name__
+        if type(back) is not T or str(back) != v:
+            return "dump/parse of the accepted text returns %r" % (back,)
+    return None
+
+
 STR_CANDIDATES = ["", " ", "  ", "a", " a ", "\n", "a\n", "a\nb", "\na", "a\n\n", "x y", "a@b.c", "a@b.c\n", "a@b", "@b.c", "a@.c", "a b@c.d", "a@b@c.d",
                   "a@b.c d", "a@b..c", "é@ü.ö", "abc", "Abc", "A", "A_b9", "aB", "12", "123x", "1234", "12x", "x12", "e", "abe", "abcde", "abab", "cdabe",
                   "-1", "-1.5", "1.", "1.5.2", " w ", "w w", "\tw\n", "a.c", "abc", "a\nc", "xy", "x", "xyz", "xy\n", "\x1cw", "tab\there",
+                  "0x1f", "0X1F", "0x1F", "0xg", "AB-CD", "ab-cd", "ABC", "xyz", "xBz", "v1.2", " v 1 . 2 ", "v12.345", "a-b", "a\n\nb", "a\nb\n", "b",
+                  "ab 12", "ab\x1c12", "ab\t12", "é 1", "a ١", "a\u00a01", "AbC\nX", "abc-x", " a - x ", "q\n", "q\nz", "qz", "q",
                   None, 5, 1.5, True, b"a@b.c", ["a"], {}]
+
+
+def parser_text_ok(v):
+    """texts that reach a str-based type unchanged from argv / a JSON config (null-like and container-like texts are re-read by the parser)"""
+    return isinstance(v, str) and v != "" and v.strip().lower() not in ("null", "~") and v.strip()[:1] not in ("[", "{")
 
 
 # ---------------------------------------------------------------- codecs: real side
@@ -721,7 +781,8 @@ def run(ctx: Ctx):
     ctx.rule = ("restricted numbers: every multiset of 1-2 (thorough 1-3) comparisons over 6 operators x reference values x and/or x int/float, each against a "
                 "fixed pool of candidates (numbers around every bound, integral/non-integral floats, booleans, numeric texts, junk, huge ints, nan/inf) - real "
                 "T(v) vs Lean model vs independent predicate, also through a real parser from argv and from a config; restricted strings: predefined + custom "
-                "patterns x text pool; registered types: value -> dump(yaml,json) -> parse back from string/file/argv; range and timedelta codecs vs model on "
+                "patterns given as str and as compiled re.Pattern with each of IGNORECASE/VERBOSE/DOTALL/MULTILINE/ASCII x text pool, judged by the ORIGINAL "
+                "pattern object's match(), directly and through a real parser (argv, config); registered types: value -> dump(yaml,json) -> parse back from string/file/argv; range and timedelta codecs vs model on "
                 "generated and mutated texts. non-trivial = (type spec, candidate) pairs where the candidate is accepted, codec texts that parse, and registered "
                 "values that are not the type's zero; distinct by canonical JSON")
     ctx.assumptions = [
@@ -731,6 +792,8 @@ def run(ctx: Ctx):
         "timedelta(**floats) is modelled on exact rationals: agrees with CPython for texts with <= 6 fraction digits and fields < 2^53 (the generators stay inside)",
         "base64, complex(), UUID(), pathlib constructors are not modelled: their round trips are evaluated on the real code only",
         "None / 'null' handling of the parser (accepted when the default is None) is outside C20",
+        "regex flags are resolved by the translation into the model's Re (case folding, DOTALL, MULTILINE anchors, ASCII \\s, VERBOSE via re._parser) for ASCII subjects; "
+        "re.LOCALE, look-around, back-references and non-ASCII subjects (Unicode case folding, Unicode \\w/\\d) are oracle-only",
     ]
     ctx.lean_build(extractors=["registered"])
     from ..lib import corpus as corpus_mod
@@ -880,38 +943,60 @@ def _run(ctx: Ctx, corpus, boost, tmpdir):
     _phase(ctx, "reference test, conversions")
     # ================================================================ restricted strings
     n_str_viol = 0
-    patterns = list(PREDEFINED_STR.items()) + [(None, p) for p in CUSTOM_REGEX]
+    patterns = [(n, p, None) for n, p in PREDEFINED_STR.items()] + [(None, p, None) for p in CUSTOM_REGEX] + [(None, p, f) for p, f in COMPILED_REGEX]
     from ..extractors import registered as ex_reg
 
     str_cands = list(STR_CANDIDATES)
     for c in corpus:
         if c.get("kind") == "str":
-            patterns.append((None, c["pattern"]))
+            if not any(p == c["pattern"] for _, p, _ in patterns):
+                patterns.append((None, c["pattern"], c.get("flags")))
             str_cands += [jv_dec(v) for v in c["vals"]]
     for _ in range(ctx.budget(60, 1500) * boost):
-        str_cands.append(mutate_text(ctx.rng, ctx.rng.choice(["a@b.c", "abc", "12x", "abe", "A_b9", "-1.5", " w ", "a.c", "xy", "a\n"]), list("ab@. \n\tcxe1-_AZ")))
-    for name, pat in patterns:
-        T = get_str_type(pat)
+        str_cands.append(mutate_text(ctx.rng, ctx.rng.choice(["a@b.c", "abc", "12x", "abe", "A_b9", "-1.5", " w ", "a.c", "xy", "a\n", "0x1F", "v1.2", "a\nb", "ab 12", "AbC\nX", "q\nz"]), list("ab@. \n\tcxe1-_AZvqXF\x1c")))
+    for name, pat, flags in patterns:
+        try:
+            T = get_str_type(pat, flags)
+        except Exception as ex:  # noqa: BLE001
+            ctx.violation("restricted_string_type refuses pattern %r (flags %s): %s" % (pat, flags, type(ex).__name__),
+                          {"kind": "str", "pattern": pat, "flags": flags, "value": jv_enc("")})
+            continue
+        orig = compiled_of(pat, flags)
+        shown = pat if not flags else "%s [compiled, %s]" % (pat, "|".join(flags))
         real = []
         for v in str_cands:
             res, raw = real_str(T, v)
             real.append(res)
             ctx.count()
-            ctx.hist("str.pattern", name or pat)
+            ctx.hist("str.pattern", name or shown)
             if "ok" in res:
-                ctx.nontrivial(("str", pat, repr(v)))
-            desc = judge_str(pat, T, v, res, raw)
+                ctx.nontrivial(("str", shown, repr(v)))
+            desc = judge_str(pat, T, v, res, raw, flags)
             if desc is not None and n_str_viol < 3:
                 n_str_viol += 1
-                ctx.violation("restricted string type %r: %s; value %r" % (pat, desc, v), {"kind": "str", "pattern": pat, "value": jv_enc(v)})
+                ctx.violation("restricted string type %s: %s; value %r" % (shown, desc, v), {"kind": "str", "pattern": pat, "flags": flags, "value": jv_enc(v)})
+        # the same verdicts through a real parser, from argv and from a config
+        p = make_parser(T)
+        for how in ("argv", "config"):
+            for v in str_cands:
+                if not parser_text_ok(v):
+                    continue
+                desc = str_via_parser(p, T, orig, v, how)
+                ctx.count()
+                ctx.hist("parser.channel", "str " + how)
+                if desc is not None and n_str_viol < 5:
+                    n_str_viol += 1
+                    ctx.violation("restricted string type %s via %s: %s; value %r" % (shown, how, desc, v),
+                                  {"kind": "str", "how": how, "pattern": pat, "flags": flags, "value": jv_enc(v)})
         mv = [(i, v) for i, v in enumerate(str_cands) if in_model(v, text_ok=False)]
         line = {"op": "str", "vals": [wire_val(v, text_ok=False) for _, v in mv]}
         if name is not None:
             line["name"] = name
         else:
             try:
-                line["re"] = ex_reg.regex_to_re(pat)
+                line["re"] = ex_reg.regex_to_re(pat, flag_value(flags))
             except ex_reg.Unsupported:
+                ctx.hist("str.oracle_only", shown)
                 continue
         lines.append(line)
         expect.append((len(lines) - 1, "str", (pat, [v for _, v in mv], [real[i] for i, _ in mv])))
@@ -1199,11 +1284,16 @@ def replay_case(b, quiet=False):
             say("creation raises", repr(ex))
             return True
     if kind == "str":
-        T = get_str_type(b["pattern"])
+        flags = b.get("flags")
+        T = get_str_type(b["pattern"], flags)
         v = jv_dec(b["value"])
+        if b.get("how", "direct") != "direct":
+            desc = str_via_parser(make_parser(T), T, compiled_of(b["pattern"], flags), v, b["how"])
+            say("pattern %r flags %s via %s, value %r: %s" % (b["pattern"], flags, b["how"], v, desc))
+            return desc is not None
         res, raw = real_str(T, v)
-        desc = judge_str(b["pattern"], T, v, res, raw)
-        say("pattern %r, value %r -> %r; %s" % (b["pattern"], v, res, desc))
+        desc = judge_str(b["pattern"], T, v, res, raw, flags)
+        say("pattern %r flags %s, value %r -> %r; %s" % (b["pattern"], flags, v, res, desc))
         return desc is not None
     if kind == "codec-rt":
         if b["type"] == "range":
